@@ -27,8 +27,14 @@ RULE = ('(a) seeded histories of opens (accepted / rejected by every handler '
         'line-level pre-emption inside close/poll/send/receive/disconnect '
         '(models async_mode=threading). distinct = distinct (server, mode, cause-set, winning '
         'reason) signatures')
-ASSUMPTIONS = ['handlers have fixed two-argument signatures, so the legacy '
-               'one-argument retry cannot re-run a handler body',
+ASSUMPTIONS = ['handlers take (sid, reason), or - in a seeded share of the '
+               'histories - the legacy (sid) form, whose reason is unobservable '
+               'and not judged; injected handler failures never are TypeErrors, '
+               'so the legacy retry cannot re-run a handler body',
+               'injected handler failures are Exception subclasses or, in a '
+               'seeded share, BaseException-only (what eventlet/gevent '
+               'Timeout and GreenletExit are); handlers may block / await for '
+               'a while after they were entered',
                'a protocol error in a POST may end the session with either '
                '"server disconnect" or "transport error" (the statement names '
                'no constant)',
@@ -132,6 +138,9 @@ def automaton(rec, sim, R, V, final=True, pi=25, pt=20):
         if not dis:
             continue
         d = dis[0]
+        if d['reason'] == '?legacy':
+            rec.count('legacy_handler_ends')
+            continue
         rec.count('reason_ledger')
         cands = [c for c in R.causes if c['s'] in (s.n, '*') and
                  c['c_start'] < d['clk']]
@@ -198,6 +207,18 @@ def contained(rec, sim, R, V, boom):
         if tk.exc is not None and 'HandlerBoom' in repr(tk.exc):
             V('handler-exception-escaped', 'handler exception escaped from %s'
               % tk.kind)
+    # cleanup not skipped: at the end of the history (every client silent,
+    # time past every timeout, monitoring on) nothing is left in the table
+    # and every accepted session got its disconnect event
+    if getattr(sim, 'nboom', 0):
+        rec.count('cleanup_after_handler_exception')
+        left = sim.table_sids()
+        if left:
+            V('cleanup-skipped-after-handler-exception', 'a handler raised '
+              'during the history and at its end the table still holds %r '
+              '(states %r)' % ([sim.sidn(x) for x in left], {
+                  sim.sidn(k): (v['closing'], v['closed'])
+                  for k, v in sim.snapshot().items()}))
 
 
 def run_history(rec, case):
@@ -206,15 +227,23 @@ def run_history(rec, case):
     pi, pt = rng.choice([(25, 20), (5, 3), (1, 1), (2, 0.5)])
     rec.evaluations += 1
     boom = {}
+    hcfg = {}
     if rng.random() < 0.35:
         for _ in range(rng.randint(1, 3)):
             boom['%s:%d' % (rng.choice(['message', 'disconnect']),
                             rng.randint(0, 8))] = True
+        if rng.random() < 0.2:
+            boom['disconnect:*'] = True
+        hcfg['boom_base'] = rng.random() < 0.4
+    hcfg['legacy_disconnect'] = rng.random() < 0.2
+    if rng.random() < 0.25:
+        hcfg['suspend'] = {rng.choice(['message', 'disconnect']):
+                           rng.choice([0.001, 0.25, 1.0])}
     script = [rng.choice([None, None, None, True, False, 'no', 'raise', 0])
               for _ in range(8)]
     sim = scen.make_sim(srv, server_kwargs={'ping_interval': pi,
                                             'ping_timeout': pt},
-                        handler_cfg={'connect': script, 'boom': boom},
+                        handler_cfg=dict(hcfg, connect=script, boom=boom),
                         policy='random', seed=rng.randrange(1 << 30),
                         yield_prob=rng.choice([0.0, 0.3]),
                         ws_close_mode=rng.choice(['none', 'raise']),
@@ -223,8 +252,9 @@ def run_history(rec, case):
     R = hist.Runner(sim)
 
     def V(key, msg):
-        rec.viol(key, msg + ' | server=%s pi=%s pt=%s boom=%r history=%s' % (
-            srv, pi, pt, sorted(boom), R.witness(50)), case)
+        rec.viol(key, msg + ' | server=%s pi=%s pt=%s boom=%r handlers=%r '
+                 'history=%s' % (srv, pi, pt, sorted(boom), hcfg,
+                                 R.witness(50)), case)
     try:
         causes_used = set()
         for _ in range(rng.randint(1, 3)):
